@@ -21,13 +21,15 @@ def main():
         fams += [f for f in ["ScanWalk-F6-mixed-t.cfg"] if os.path.exists(os.path.join(vf.SPEC, "cfg", f))]
     modes = ["stream/plain", "fallback/nasty", "real/nasty", "wide/plain", "stream/blank"]
     scanwalk.run_family(ck, fams, modes)
+    scanwalk.run_swap_family(ck, "ScanWalk-F3-swap.cfg", modes)
     ck.cov["exhaustive"] = True
     ck.cov["rule"] = ("every scenario (tree over a 10-slot path universe - 12 slots down to a/b/c/f in the deep family - with .gitignore files at every level, skip list/regex/glob, gitignore atoms, "
                       "requested paths, cut-off, size limit, symlink/special files, extractor 'required' sets) reachable in ScanWalk.tla under the cfg "
                       "constants, each replayed through scalibr.Scan on an in-memory FS (streaming and fallback listing, plain and dotted/spaced/dashed names) "
                       "and on a real directory; non-trivial = at least one Extract call expected")
     ck.cov["not_explored"] += ["sub-directory cut-off without requested paths", "requested path inside a directory excluded by skip list/regex/glob",
-                               "explicitly requested file/dir that a parent .gitignore matches", "negated gitignore patterns",
+                               "explicitly requested directory that a parent .gitignore matches; for an explicitly requested file that a parent .gitignore matches only "
+                               "the independence of the answer from the position of the request is checked (swap family), not the answer itself", "negated gitignore patterns",
                                "requested symlinks / special files", "nested requested paths together with the cut-off"]
     ck.assumptions += ["skip regex/glob are compiled by the harness to match exactly the modelled directory set (the regex/glob engines are not under test)",
                        "git's semantics of the pattern forms name, /name, name/ as transcribed in AtomMatch"]
